@@ -38,7 +38,12 @@ class Scanner:
         while self.pos < len(self.input):
             if self.state is not None:
                 try:
+                    position = self.pos
                     self.state(self)
+                    if self.pos == position:
+                        # the state did not consume anything, scanning it again would never end.
+                        self.start = self.pos
+                        raise ScannerException(f"Invalid Input {self.input[self.pos:]}", self.get_position())
                 except ScannerException as e:
                     # consume the rest of the current line
                     self.accept_run("\n\0", negate=True)
